@@ -24,7 +24,11 @@ pub fn decode_case_a(data: &[u8]) -> Option<CaseA> {
     let r = (|| -> arbitrary::Result<CaseA> {
         let nt = crate::types::ntypes() as u8;
         let cfg = Cfg {
-            flavor: if u.arbitrary::<bool>()? { Fl::Sync } else { Fl::Unsync },
+            flavor: if u.arbitrary::<bool>()? {
+                Fl::Sync
+            } else {
+                Fl::Unsync
+            },
             freelist: u.int_in_range(0u8..=2)?,
             // Vec backend only: its heap block has AddressSanitizer red zones on both sides
             backend: Backend::Vec,
@@ -43,16 +47,33 @@ pub fn decode_case_a(data: &[u8]) -> Option<CaseA> {
         let mut ops = Vec::new();
         while !u.is_empty() && ops.len() < 48 {
             let op = match u.int_in_range(0u8..=23)? {
-                0..=6 => Op::AllocBytes { n: size(&mut u)?, owned: u.ratio(1u8, 4u8)?, via: u.arbitrary()? },
-                7..=8 => Op::AllocAligned { ty: u.int_in_range(0..=nt - 1)?, n: size(&mut u)?, owned: u.ratio(1u8, 4u8)?, via: u.arbitrary()? },
-                9..=11 => Op::AllocTyped { ty: u.int_in_range(0..=nt - 1)?, owned: u.ratio(1u8, 4u8)?, via: u.arbitrary()? },
-                12 => Op::Fill { slack: u.int_in_range(0u8..=23)? },
+                0..=6 => Op::AllocBytes {
+                    n: size(&mut u)?,
+                    owned: u.ratio(1u8, 4u8)?,
+                    via: u.arbitrary()?,
+                },
+                7..=8 => Op::AllocAligned {
+                    ty: u.int_in_range(0..=nt - 1)?,
+                    n: size(&mut u)?,
+                    owned: u.ratio(1u8, 4u8)?,
+                    via: u.arbitrary()?,
+                },
+                9..=11 => Op::AllocTyped {
+                    ty: u.int_in_range(0..=nt - 1)?,
+                    owned: u.ratio(1u8, 4u8)?,
+                    via: u.arbitrary()?,
+                },
+                12 => Op::Fill {
+                    slack: u.int_in_range(0u8..=23)?,
+                },
                 13 => Op::Write { h: u.arbitrary()? },
                 14..=17 => Op::Drop { h: u.arbitrary()? },
                 18 => Op::Detach { h: u.arbitrary()? },
                 19 => Op::DeallocDetached { h: u.arbitrary()? },
                 20 => Op::DiscardFreelist,
-                21 => Op::SetMinSeg { v: u.int_in_range(0u32..=100)? },
+                21 => Op::SetMinSeg {
+                    v: u.int_in_range(0u32..=100)?,
+                },
                 22 => Op::CloneArena,
                 _ => Op::DropArena { a: u.arbitrary()? },
             };
